@@ -115,11 +115,20 @@ func prodFuncs(c *Ctx, rels ...string) []*ssa.Function {
 
 func checkC11(c *Ctx, r *Report, tier string) {
 	r.Rule("C11.R1", "no dropped error: no function returns a nil error from the non-nil side of an error test without handing the error on", 1)
-	r.Rule("C11.R2", "a non-blocking notification cannot be lost: where Notify is called with blocking=false on a notificator, every Create(n) on the same owner has a constant n >= 1", 4)
-	r.Rule("C11.R3", "id pairing: the NotificationId placed in a proposal is the id returned by the Create of the same activation, Remove(id) is deferred, the apply side notifies the id parsed from that field, and the value it notifies is the error of the index operation of that path (never a constant on a path that has one); ids are fresh random uuids; a channel looked up in the notificator is only used under its mutex", 15)
+	r.Rule("C11.R2", "a non-blocking notification cannot be lost: where Notify is called with blocking=false on a notificator, every Create(n) on the same owner has a constant n >= 1", 1)
+	r.Rule("C11.R3", "id pairing: the NotificationId placed in a proposal is the id returned by the Create of the same activation, Remove(id) is deferred, the apply side notifies the id parsed from that field, and the value it notifies is the error of the index operation of that path (never a constant on a path that has one); ids are fresh random uuids; a channel looked up in the notificator is only used under its mutex", 10)
 	r.Rule("C11.R4", "the dimension check dominates propose and proxy on every vector-carrying Dataset entry point; batch paths forward only the checked subset", 4)
-	r.Rule("C11.R5", "success only from the notification: a proposing function returns a nil error only on the arm that received from its own notification channel; the partition methods return nil only when the received outcome is nil", 8)
-	r.Rule("C11.R6", "batch error map: every failed partition request maps each of its items to the error; results of all workers are merged", 4)
+	r.Rule("C11.R5", "success only from the notification: a proposing function returns a nil error only on the arm that received from its own notification channel; the partition methods return nil only when the received outcome is nil", 3)
+	r.Rule("C11.R6", "batch error map: every failed partition request maps each of its items to the error; results of all workers are merged", 3)
+	for _, k := range []string{"success-return", "outcome-tested", "nil-only-if-outcome-nil"} {
+		r.Need("C11.R5", k, "the proposing functions and their callers must be found")
+	}
+	for _, k := range []string{"proposal-carries-own-id", "deferred-remove", "-id", "-value", "id-is-random-uuid", "send#"} {
+		r.Need("C11.R3", k, "proposer side, apply side and the notificator itself must all be seen")
+	}
+	for _, k := range []string{"dimension-check", "batch-forwards-checked"} {
+		r.Need("C11.R4", k, "single and batch write entry points must be found")
+	}
 	fns := prodFuncs(c, "storage", "services", "storage/raft", "storage/wal", "cluster", "utils", "index", "")
 	n := nilErrRule(c, r, "C11.R1", fns)
 	r.OKTrivial("C11.R1", "module", "error-tests-examined", "-", fmt.Sprintf("%d `err != nil` tests examined in %d functions", n, len(fns)))
@@ -410,6 +419,57 @@ func dimensionGuards(c *Ctx) map[*ssa.Function]bool {
 	return out
 }
 
+// itemFilterShape: f checks each batch item with a dimension guard and appends to BatchItem slices only on the guard's
+// success side. Returns the guard call (nil if the shape is absent).
+func itemFilterShape(f *ssa.Function, guards map[*ssa.Function]bool) (*ssa.Call, bool) {
+	var g *ssa.Call
+	eachInstr(f, func(i ssa.Instruction) {
+		if cl, ok := i.(*ssa.Call); ok && guards[cl.Call.StaticCallee()] {
+			g = cl
+		}
+	})
+	if g == nil {
+		return nil, false
+	}
+	ifi, errPol := errTestOf(f, g)
+	if ifi == nil {
+		return g, false
+	}
+	ok, n := true, 0
+	eachInstr(f, func(i ssa.Instruction) {
+		cl, isC := i.(*ssa.Call)
+		if !isC || !callID(&cl.Call).is("builtin", "", "append") || !strings.Contains(cl.Type().String(), "BatchItem") {
+			return
+		}
+		n++
+		if !guardedBy(cl.Block(), ifi, !errPol) {
+			ok = false
+		}
+	})
+	return g, ok && n > 0
+}
+
+// batchFilterHelpers: module functions whose BatchItem-slice result is built under the item filter shape.
+func batchFilterHelpers(c *Ctx, guards map[*ssa.Function]bool) map[*ssa.Function]bool {
+	out := map[*ssa.Function]bool{}
+	for _, f := range prodFuncs(c, "storage") {
+		res := f.Signature.Results()
+		returnsItems := false
+		for k := 0; k < res.Len(); k++ {
+			if strings.Contains(res.At(k).Type().String(), "BatchItem") {
+				returnsItems = true
+			}
+		}
+		if !returnsItems {
+			continue
+		}
+		if _, ok := itemFilterShape(f, guards); ok {
+			out[f] = true
+		}
+	}
+	return out
+}
+
 func c11R4(c *Ctx, r *Report) {
 	guards := dimensionGuards(c)
 	if len(guards) == 0 {
@@ -500,13 +560,46 @@ func c11R4(c *Ctx, r *Report) {
 			r.Check(bad == "", "C11.R4", fnName(f), "dimension-check", c.Pos(g.Pos()), "dimension check dominates every partition / client / worker call "+bad)
 			continue
 		}
-		// batch entry points: functions looping over items and calling a guard
+		// batch entry points: functions looping over items and calling a guard, or delegating that to a filter helper
+		filters := batchFilterHelpers(c, guards)
 		var g *ssa.Call
+		var viaHelper *ssa.Call
 		eachInstr(f, func(i ssa.Instruction) {
 			if cl, ok := i.(*ssa.Call); ok && guards[cl.Call.StaticCallee()] {
 				g = cl
 			}
+			if cl, ok := i.(*ssa.Call); ok && filters[cl.Call.StaticCallee()] {
+				viaHelper = cl
+			}
 		})
+		if g == nil && viaHelper != nil {
+			// the forwarded list must be the helper's result
+			okH := true
+			why := "only items that passed the dimension check (in " + viaHelper.Call.StaticCallee().Name() + ") are forwarded"
+			eachInstr(f, func(i ssa.Instruction) {
+				cl, ok := i.(*ssa.Call)
+				if !ok || cl.Call.StaticCallee() == nil || cl.Call.StaticCallee().Signature.Recv() == nil || i == ssa.Instruction(viaHelper) {
+					return
+				}
+				t := cl.Call.StaticCallee()
+				if namedOf(t.Signature.Recv().Type()) != dsT {
+					return
+				}
+				for _, a := range cl.Call.Args {
+					if _, isSl := a.Type().Underlying().(*types.Slice); !isSl || !strings.Contains(a.Type().String(), "BatchItem") {
+						continue
+					}
+					for _, o := range origins(a, originOpt{}) {
+						if ex, ok := o.(*ssa.Extract); !ok || ex.Tuple != ssa.Value(viaHelper) {
+							okH = false
+							why = "the unchecked request list is forwarded (" + o.String() + ")"
+						}
+					}
+				}
+			})
+			r.Check(okH, "C11.R4", fnName(f), "batch-forwards-checked", c.Pos(viaHelper.Pos()), why)
+			continue
+		}
 		if g == nil {
 			continue
 		}
@@ -553,82 +646,27 @@ func c11R4(c *Ctx, r *Report) {
 }
 
 func c11R5(c *Ctx, r *Report) {
-	ro := discoverRoles(c)
-	_ = ro
 	var waiters []*ssa.Function
 	for _, f := range prodFuncs(c, "storage") {
 		var create *ssa.Call
-		var sel *ssa.Select
 		eachInstr(f, func(i ssa.Instruction) {
 			if cl, ok := i.(*ssa.Call); ok && isNotificatorCall(&cl.Call, "Create") {
 				create = cl
-			}
-			if s, ok := i.(*ssa.Select); ok {
-				sel = s
 			}
 		})
 		if create == nil {
 			continue
 		}
-		fn := fnName(f)
-		if sel == nil {
-			r.Bad("C11.R5", fn, "waits-for-outcome", c.Pos(create.Pos()), "creates a notification channel but never waits on it")
-			continue
-		}
-		waiters = append(waiters, f)
-		// arm index receiving from the created channel
-		arm := -1
-		for k, st := range sel.States {
-			for _, o := range origins(st.Chan, originOpt{}) {
-				if ex, ok := o.(*ssa.Extract); ok && ex.Tuple == ssa.Value(create) && ex.Index == 0 && st.Dir == types.RecvOnly {
-					arm = k
+		isChan := func(v ssa.Value) bool {
+			for _, o := range origins(v, originOpt{}) {
+				if ex, ok := o.(*ssa.Extract); ok && ex.Tuple == ssa.Value(create) && ex.Index == 0 {
+					return true
 				}
 			}
+			return false
 		}
-		if arm < 0 {
-			r.Bad("C11.R5", fn, "waits-for-outcome", c.Pos(sel.Pos()), "the select does not receive from this activation's notification channel")
-			continue
-		}
-		var armIf *ssa.If
-		for _, ifi := range allIfs(f) {
-			if b, ok := ifi.Cond.(*ssa.BinOp); ok && b.Op == token.EQL {
-				if ex, ok := b.X.(*ssa.Extract); ok && ex.Tuple == ssa.Value(sel) && ex.Index == 0 {
-					if n, ok := constInt(b.Y); ok && int(n) == arm {
-						armIf = ifi
-					}
-				}
-			}
-		}
-		k := 0
-		for _, rt := range returnsOf(f) {
-			last := rt.Results[len(rt.Results)-1]
-			// success = nil constant, or (for Create) a delegation returning another call's error after the arm
-			if !isNilConst(last) {
-				// a non-constant error value on a non-arm path must come from a call (ctx.Err(), Propose error, Marshal error)
-				continue
-			}
-			k++
-			cons := fmt.Sprintf("success-return#%d", k)
-			ok := armIf != nil && guardedBy(rt.Block(), armIf, true)
-			r.Check(ok, "C11.R5", fn, cons, c.Pos(rt.Pos()), "nil error is returned only on the arm that received the apply outcome")
-		}
-		// a blocking single-arm select would also be fine; nothing else accepted
-		// the received value decides: on the arm, a non-nil outcome is returned as error (functions whose only result is error)
-		if f.Signature.Results().Len() == 1 && armIf != nil {
-			recvIdx := 2 + recvOrdinal(sel, arm)
-			var got ssa.Value
-			for _, u := range *sel.Referrers() {
-				if ex, ok := u.(*ssa.Extract); ok && ex.Index == recvIdx {
-					got = ex
-				}
-			}
-			okT := false
-			if got != nil {
-				if ifi, _ := nilTestOf(f, got); ifi != nil {
-					okT = true
-				}
-			}
-			r.Check(okT, "C11.R5", fn, "outcome-tested", c.Pos(sel.Pos()), "the received outcome is tested for nil before success is returned")
+		if waitShape(c, r, f, isChan, create.Pos(), 0) {
+			waiters = append(waiters, f)
 		}
 	}
 	// callers of a waiter that return only an error: nil only when both err and the outcome are nil
@@ -666,6 +704,109 @@ func c11R5(c *Ctx, r *Report) {
 			}
 		})
 	}
+}
+
+// waitShape checks that fn waits for the outcome on the channel designated by isChan before returning success: either in
+// a select of its own, or by handing the channel to a module-local helper that does. Returns whether a wait was found.
+func waitShape(c *Ctx, r *Report, fn *ssa.Function, isChan func(ssa.Value) bool, at token.Pos, depth int) bool {
+	name := fnName(fn)
+	var sel *ssa.Select
+	arm := -1
+	eachInstr(fn, func(i ssa.Instruction) {
+		if s, ok := i.(*ssa.Select); ok {
+			for k, st := range s.States {
+				if st.Dir == types.RecvOnly && isChan(st.Chan) {
+					sel, arm = s, k
+				}
+			}
+		}
+	})
+	if sel == nil {
+		// a helper that receives the channel
+		var helper *ssa.Call
+		hp := -1
+		eachInstr(fn, func(i ssa.Instruction) {
+			cl, ok := i.(*ssa.Call)
+			if !ok || cl.Call.StaticCallee() == nil || !modLocal(cl.Call.StaticCallee()) {
+				return
+			}
+			for k, a := range cl.Call.Args {
+				if _, isCh := a.Type().Underlying().(*types.Chan); isCh && isChan(a) {
+					helper, hp = cl, k
+				}
+			}
+		})
+		if helper == nil || depth > 1 {
+			r.Bad("C11.R5", name, "waits-for-outcome", c.Pos(at), "creates a notification channel but never waits on it")
+			return false
+		}
+		g := helper.Call.StaticCallee()
+		param := ssa.Value(g.Params[hp])
+		if !waitShape(c, r, g, func(v ssa.Value) bool {
+			for _, o := range origins(v, originOpt{}) {
+				if o == param {
+					return true
+				}
+			}
+			return false
+		}, g.Pos(), depth+1) {
+			return false
+		}
+		// success in fn only when the helper reported success
+		ifi, errPol := errTestOf(fn, helper)
+		k := 0
+		for _, rt := range returnsOf(fn) {
+			last := rt.Results[len(rt.Results)-1]
+			if !isNilConst(last) {
+				continue
+			}
+			k++
+			ok := ifi != nil && guardedBy(rt.Block(), ifi, !errPol)
+			r.Check(ok, "C11.R5", name, fmt.Sprintf("success-return#%d", k), c.Pos(rt.Pos()), "nil error is returned only after the waiting helper "+g.Name()+" reported success")
+		}
+		if k == 0 {
+			r.OK("C11.R5", name, "success-return#via-helper", c.Pos(helper.Pos()), "the result of the waiting helper "+g.Name()+" is what this function reports")
+		}
+		return true
+	}
+	var armIf *ssa.If
+	for _, ifi := range allIfs(fn) {
+		if b, ok := ifi.Cond.(*ssa.BinOp); ok && b.Op == token.EQL {
+			if ex, ok := b.X.(*ssa.Extract); ok && ex.Tuple == ssa.Value(sel) && ex.Index == 0 {
+				if n, ok := constInt(b.Y); ok && int(n) == arm {
+					armIf = ifi
+				}
+			}
+		}
+	}
+	k := 0
+	for _, rt := range returnsOf(fn) {
+		last := rt.Results[len(rt.Results)-1]
+		if !isNilConst(last) {
+			continue
+		}
+		k++
+		ok := armIf != nil && guardedBy(rt.Block(), armIf, true)
+		r.Check(ok, "C11.R5", name, fmt.Sprintf("success-return#%d", k), c.Pos(rt.Pos()), "nil error is returned only on the arm that received the apply outcome")
+	}
+	// the received value decides: on the arm, a non-nil outcome is returned as error (functions whose only result is error)
+	if fn.Signature.Results().Len() == 1 && armIf != nil {
+		recvIdx := 2 + recvOrdinal(sel, arm)
+		var got ssa.Value
+		for _, u := range *sel.Referrers() {
+			if ex, ok := u.(*ssa.Extract); ok && ex.Index == recvIdx {
+				got = ex
+			}
+		}
+		okT := false
+		if got != nil {
+			if ifi, _ := nilTestOf(fn, got); ifi != nil {
+				okT = true
+			}
+		}
+		r.Check(okT, "C11.R5", name, "outcome-tested", c.Pos(sel.Pos()), "the received outcome is tested for nil before success is returned")
+	}
+	return true
 }
 
 // recvOrdinal: position of arm among the receive states (select result tuple: index, ok, recv0, recv1, …)
@@ -864,10 +1005,16 @@ func sendCounts(f *ssa.Function, match func(*ssa.Send) bool) (int, int) {
 
 func checkC09(c *Ctx, r *Report, tier string) {
 	r.Rule("C09.R1", "every partition exactly once: the plan function appends each partition's id to exactly one bucket on every path of its loop, the bucket key being an element of that partition's own node list", 1)
-	r.Rule("C09.R2", "one worker per bucket, one message per worker: the spawn loop ranges over the plan, the collector loop is bounded by the size of the same collection, each worker sends exactly one message on every path", 6)
+	r.Rule("C09.R2", "one worker per bucket, one message per worker: the spawn loop ranges over the plan, the collector loop is bounded by the size of the same collection, each worker sends exactly one message on every path", 4)
 	r.Rule("C09.R3", "a closed channel cannot masquerade as a message: no select receives, without the comma-ok form, from two or more channels that the same function (or a goroutine it spawns) closes", 2)
 	r.Rule("C09.R4", "the success return is sorted and truncated to min(k, len) (as C01.R4) and every received partial result is appended to the list that is returned", 4)
 	r.Rule("C09.R5", "errors are not dropped: nil-error rule over the search path; an error message from a worker fails the call", 3)
+	for _, k := range []string{"spawn", "collector-bound", "one-message-per-worker"} {
+		r.Need("C09.R2", k, "spawn loop, collector and workers of the dataset search must be found")
+	}
+	r.Need("C09.R4", "merge", "the merge of partial results must be found")
+	r.Need("C09.R4", "success-return", "the sorted/truncated success return must be found")
+	r.Need("C09.R5", "error-arm", "the collector's error arm must be found")
 	dsT := c.Named("storage", "Dataset")
 	fParts := c.Field("storage", "Dataset", "partitions")
 	srT := c.Named("index", "SearchResult")
